@@ -28,7 +28,8 @@ fn sample_scenarios() -> Vec<Scenario> {
     for id in ["C12", "C16"] {
         let p = props::by_id(id).unwrap();
         let strat = (p.raw)(Tier::Quick);
-        for _ in 0..40 {
+        let mut taken = 0;
+        while taken < 40 {
             let raw = strat.new_tree(&mut runner).unwrap().current();
             let mut raw1 = raw.clone();
             raw1.threads.truncate(1); // single producer => deterministic pipeline
@@ -43,6 +44,11 @@ fn sample_scenarios() -> Vec<Scenario> {
                     t.retain(|o| !matches!(o, Op::GateAwait { gate: 0, .. }));
                 }
             }
+            // two stores have two reducer threads: their relative order is schedule-dependent
+            if scn.stores.len() != 1 {
+                continue;
+            }
+            taken += 1;
             v.push(scn);
         }
     }
